@@ -193,6 +193,13 @@ DInvalidCalls(T, r, n) ==
                 \cup UNION {{[op |-> "put", path |-> Append(x.path, k), k |-> DocKeys[1], v |-> VP(r * 1000 + n * 10 + 1), dead |-> TRUE, err |-> "must"],
                              [op |-> "ins", path |-> Append(x.path, k), pos |-> 0, vals |-> DBatch(<<"p">>, r, n), dead |-> TRUE, err |-> "must"]}
                             : k \in {k \in DOMAIN node.m : DIsTomb(T[node.m[k]]) /\ T[node.m[k]].kind # "E"}}
+                \* ... and on a container INSIDE a removed or overwritten object: not removed itself, but garbage with its ancestor
+                \cup UNION {UNION {IF T[T[node.m[k]].m[k2]].kind = "A"
+                                   THEN {[op |-> "ins", path |-> x.path \o <<k, k2>>, pos |-> 0, vals |-> DBatch(<<"p">>, r, n), dead |-> TRUE, err |-> "must"],
+                                         [op |-> "del", path |-> x.path \o <<k, k2>>, pos |-> 0, n |-> 1, dead |-> TRUE, err |-> "must"]}
+                                   ELSE {[op |-> "put", path |-> x.path \o <<k, k2>>, k |-> DocKeys[1], v |-> VP(r * 1000 + n * 10 + 1), dead |-> TRUE, err |-> "must"]}
+                                   : k2 \in {j \in DOMAIN T[node.m[k]].m : T[T[node.m[k]].m[j]].kind # "E"}}
+                            : k \in {k \in DOMAIN node.m : DIsTomb(T[node.m[k]]) /\ T[node.m[k]].kind = "O"}}
                 \cup {[op |-> "rmv", path |-> x.path, k |-> k, err |-> "free"]
                          : k \in {k \in DKeySet : k \notin DOMAIN node.m \/ DIsTomb(T[node.m[k]])}}
            ELSE LET sz == Len(DLiveItems(T, node)) IN
